@@ -207,9 +207,13 @@ class Machine:
         if isinstance(s, ast.Return):
             raise Return(self.ev(s.value, st) if s.value is not None else None)
         if isinstance(s, ast.Break):
-            raise Break()
+            e = Break()
+            e.state = dict(st)
+            raise e
         if isinstance(s, ast.Continue):
-            raise Continue()
+            e = Continue()
+            e.state = dict(st)
+            raise e
         if isinstance(s, (ast.Pass, ast.Assert)):
             return st
         if isinstance(s, ast.Raise):
@@ -258,10 +262,11 @@ def loop_system(fn: ast.FunctionDef, classes, make_machine, elem_value):
             st2 = m.run(loop.body, st)
         except Return as r:
             return ('return', r.value, tuple(m.events))
-        except Break:
-            return ('break', freeze(st), tuple(m.events))
-        except Continue:
-            st2 = st   # approximated: state changes before `continue` are kept below
+        except Break as b:
+            stb = getattr(b, 'state', st)
+            return ('break', freeze({k: v for k, v in stb.items() if k != loop.target.id and k != '_'}), tuple(m.events))
+        except Continue as c:
+            st2 = getattr(c, 'state', st)
         st2 = {k: v for k, v in st2.items() if k != loop.target.id and k != '_'}
         return ('next', freeze(st2), tuple(m.events))
 
